@@ -59,7 +59,40 @@ fn c01_leaves() -> Vec<Rule> {
     vec![
         Rule::normal("X", vec![Directive::Position], choice(vec![lit("b"), seq(vec![lit("c"), lit("b")])])),
         Rule::chr("D", vec![CharPart::Char(LitChar::canon('c')), CharPart::Range(LitChar::canon('a'), LitChar::canon('a'))]),
+        // a plain rule (no @position / @string / @no_skip_ws) that can match the empty string
+        Rule::normal("Z", vec![], opt(lit("c"))),
     ]
+}
+
+/// case-insensitive literals of every printable ASCII character, against every 7-bit byte
+fn insensitive_family(b: &mut Builder, tier: Tier) {
+    let mut all_bytes: Vec<String> = (0u8..128).map(|x| (x as char).to_string()).collect();
+    for x in 0u8..128 {
+        all_bytes.push(format!("{}z", x as char));
+        all_bytes.push(format!("{}Z", x as char));
+    }
+    all_bytes.push(String::new());
+    all_bytes.push("é".into());
+    let inputs = InputSpec::List(all_bytes);
+    for c in 0x20u8..0x7f {
+        let c = c as char;
+        if tier == Tier::Quick && c.is_ascii_alphanumeric() && !"aZk09".contains(c) {
+            continue;
+        }
+        for e in [ilit(&c.to_string()), ilit(&format!("{c}z")), seq(vec![ilit(&c.to_string()), opt(ilit("Z"))])] {
+            for noskip in [true, false] {
+                if c == ' ' && !noskip {
+                    continue;
+                }
+                let mut dirs = vec![Directive::Export, Directive::Position];
+                if noskip {
+                    dirs.push(Directive::NoSkipWs);
+                }
+                let g = root_grammar(dirs, e.clone(), &[]);
+                add_if_wf(b, "insensitive", g, &inputs);
+            }
+        }
+    }
 }
 
 pub fn c01(tier: Tier) -> Vec<Case> {
@@ -77,6 +110,7 @@ pub fn c01(tier: Tier) -> Vec<Case> {
         field("f", "X"),
         lit(""),
         rref("D"),
+        rref("Z"),
     ];
     let small_atoms = vec![lit("b"), lit("bc"), rref("X"), Expr::Eoi];
     let (k_full, k_small, len) = match tier {
@@ -100,6 +134,7 @@ pub fn c01(tier: Tier) -> Vec<Case> {
     }
     // escapes and @char classes
     charclass_family(&mut b, tier);
+    insensitive_family(&mut b, tier);
     b.cases
 }
 
@@ -347,8 +382,10 @@ pub fn c08(tier: Tier) -> Vec<Case> {
         inc("Inc"),
         rref("Whitespace"),
         field("v", "V"),
+        field("t", "T"),
+        field("i", "Item"),
     ];
-    let small_atoms = vec![lit("b"), field("f", "X"), field("c", "char"), inc("Inc")];
+    let small_atoms = vec![lit("b"), field("f", "X"), field("c", "char"), inc("Inc"), field("i", "Item")];
     let mut all: Vec<Expr> = trees(&atoms, &ALL_OPS, k);
     for t in trees_by_size(&small_atoms, &NO_LOOKAHEAD_OPS, k_small).into_iter().skip(k) {
         all.extend(t);
@@ -359,7 +396,7 @@ pub fn c08(tier: Tier) -> Vec<Case> {
     for e in &all {
         for root_noskip in [false, true] {
             for leaf_noskip in [false, true] {
-                for user_ws in [false, true] {
+                for user_ws in [0, 1, 2] {
                     let nd = |on: bool| if on { vec![Directive::NoSkipWs] } else { vec![] };
                     let mut leaves = vec![
                         // struct leaf with position, two tokens
@@ -370,8 +407,15 @@ pub fn c08(tier: Tier) -> Vec<Case> {
                         Rule::normal("Inc", nd(!root_noskip), seq(vec![field("g", "X"), opt(lit("c"))])),
                         // override leaf
                         Rule::normal("V", nd(leaf_noskip), seq(vec![lit("c"), over("S")])),
+                        // plain rules (no @position / @string): T can match the empty string, Item ends with it
+                        Rule::normal("T", nd(leaf_noskip), opt(lit("b"))),
+                        Rule::normal("Item", nd(leaf_noskip), seq(vec![lit("c"), field("t", "T")])),
                     ];
-                    if user_ws {
+                    if user_ws == 2 {
+                        // a Whitespace rule that is not idempotent: skips at most one filler
+                        leaves.push(Rule::normal("Whitespace", vec![Directive::NoSkipWs], opt(lit("_"))));
+                    }
+                    if user_ws == 1 {
                         leaves.push(Rule::normal(
                             "Whitespace",
                             vec![Directive::NoSkipWs],
@@ -392,9 +436,9 @@ pub fn c08(tier: Tier) -> Vec<Case> {
                         "ws/root_{}/leaf_{}/{}",
                         if root_noskip { "noskip" } else { "skip" },
                         if leaf_noskip { "noskip" } else { "skip" },
-                        if user_ws { "user" } else { "builtin" }
+                        ["builtin", "user", "user-once"][user_ws]
                     );
-                    add_if_wf(&mut b, &fam, g, if user_ws { &inputs_user } else { &inputs_builtin });
+                    add_if_wf(&mut b, &fam, g, if user_ws > 0 { &inputs_user } else { &inputs_builtin });
                 }
             }
         }
